@@ -357,7 +357,16 @@ func (s *srvWorld) do(method, path string, creds bool, body string) *httptest.Re
 	if creds {
 		s.addCreds(req)
 	}
-	s.mux.ServeHTTP(rec, req)
+	func() {
+		// net/http recovers a handler's panic and drops the connection; here it becomes a 500
+		defer func() {
+			if e := recover(); e != nil {
+				rec.Code = 500
+				rec.Body.WriteString(fmt.Sprintf("handler panic: %v", e))
+			}
+		}()
+		s.mux.ServeHTTP(rec, req)
+	}()
 	return rec
 }
 
